@@ -342,6 +342,10 @@ func (st *groupState) checkR4(c Commit, r *gReader) {
 	}
 	k := tp{c.Topic, c.Partition}
 	p := st.cl.Part(k.t, k.p)
+	if p == nil {
+		st.s.Fail("C03", "R3-unknown-partition", "commit accepted for %s[%d], which does not exist (reader %d, member %s, generation %d)", k.t, k.p, r.k, c.Member, c.Generation)
+		return
+	}
 	missing := 0
 	for _, rec := range p.Records() {
 		if rec.Offset >= c.Offset {
